@@ -76,6 +76,8 @@ def assist(project, source, position, filename=None, debug=False):
             # with the module variables functions create through a global
             # declaration, wherever the cursor is
             names = set(name.flow.names_at(position)).union(scope._global_names)
+            # and what nested functions have bound by then through nonlocal
+            names.update(scope.closure_names(name.flow.scope, position))
 
     return prefix, sorted(names)
 
